@@ -18,9 +18,9 @@ LEVEL = "model_checking"
 EXHAUSTIVE = True
 CASE_TIMEOUT = 1800
 RULE = ("programs = (a) statement programs: every template of the C01 grammar "
-        "alone on each host it supports, core containers x core templates nested, "
-        "core x core sequences (thorough: + every container x every template, every "
-        "pair with a core member, triples over the mini core); (b) declaration "
+        "alone on each host it supports, core containers x core templates nested "
+        "(thorough: + core x core sequences, mini-core containers x every template, "
+        "every pair with a probe member, triples over the mini core); (b) declaration "
         "programs: module dmod built from every compatible set of <= 2 (thorough "
         "<= 3 over the core features) declaration features x statement snippets; "
         "each is read and re-written three times by the real FortranReader / "
@@ -41,7 +41,7 @@ DECL_BLOCK = 40
 
 
 def bounds(tier):
-    stm = fprog.statement_specs(tier)
+    stm = _statement_specs(tier)
     dcl = fprog.decl_specs(tier)
     classes = {}
     for cls, _spec in stm:
@@ -58,8 +58,25 @@ def bounds(tier):
             "max_features": 2 if tier == "quick" else 3}
 
 
+QUICK_ST_CLASSES = ("s1", "n2core")
+
+
+def _statement_specs(tier):
+    return [(cls, spec) for cls, spec in fprog.statement_specs(tier)
+            if tier == "thorough" or cls in QUICK_ST_CLASSES]
+
+
 def cases(tier):
-    stm = fprog.statement_specs(tier)
+    # development aid only (mutant runs): VERIF_C03_CLASSES=s1,d1 restricts the
+    # enumeration to the named size classes; registered runs never set it
+    only = [c for c in os.environ.get("VERIF_C03_CLASSES", "").split(",") if c]
+    for case in _cases(tier):
+        if not only or case["key"].split(":")[1] in only:
+            yield case
+
+
+def _cases(tier):
+    stm = _statement_specs(tier)
     by_cls = {}
     for cls, spec in stm:
         by_cls.setdefault(cls, []).append(fprog.prog_key(spec))
